@@ -108,7 +108,7 @@ func (k Keeper) PlaceBid(ctx context.Context, msg *types.MsgPlaceBid) (types.Bid
 	bid := types.Bid{
 		AuctionId: msg.AuctionId,
 		Id:        bidID,
-		Bidder:    msg.Bidder,
+		Bidder:    bidder.String(),
 		Type:      msg.BidType,
 		Price:     msg.Price,
 		Coin:      msg.Coin,
